@@ -45,7 +45,7 @@ def instantiations(tier, seed):
     pick = skels if tier == "thorough" else [skels[i] for i in (0, 2, 11, 12, 13, 16, 23, 24, 27, 29, 30, 31) if i < len(skels)]
     for k, sk in enumerate(pick):
         names = F.ALT_NAMES[(k + seed) % len(F.ALT_NAMES)]
-        ops = PL_OPS if tier == "thorough" else [PL_OPS[(k + j) % len(PL_OPS)] for j in range(4)] + ["evaluate"]
+        ops = PL_OPS if tier == "thorough" else [PL_OPS[(k + j) % len(PL_OPS)] for j in range(8)] + ["evaluate"]
         for op in dict.fromkeys(ops):
             conc = op in ("to_ge_polyhedron", "solve")
             m = F.rename(sk if conc else F.symbolize(sk), names)
@@ -56,7 +56,7 @@ def instantiations(tier, seed):
                 # sub-propositions whose own variable was given as an explicit puan.variable with constant bounds
                 out.append({"part": "frame", "kind_": "plog", "model": _prefix(m, k), "op": op})
     for k, c in enumerate(cfg.cfg_family(tier, seed, n_quick=2, n_thorough=40)[:(6 if tier == "quick" else 200)]):
-        for op in (CFG_OPS if (tier == "thorough" or k < 3) else [CFG_OPS[k % len(CFG_OPS)]]):
+        for op in (CFG_OPS if (tier == "thorough" or k < 5) else [CFG_OPS[k % len(CFG_OPS)]]):
             out.append({"part": "frame", "kind_": "cfg", "model": c, "op": op})
     for c in cfg.curated()[:3] + [cfg.SC(F.AL(1, F.V("x", -3, 3), F.V("y", -3, 3), id="R", sign=1))]:
         out.append({"part": "cache", "model": c})
